@@ -48,12 +48,12 @@ def run(ctx):
     def expect(f, setter, pred, what, count=1, key=None):
         sites = setter_sites(f, setter)
         k = key or '%s:%s' % (f.id, setter)
-        if len(sites) != count:
+        if len(sites) != count and f.n_sites([b for b, _ in sites]) != count:
             rep.bad(r1, k, 'expected %d call(s) of %s, found %d' % (count, setter, len(sites)), '%s:%d' % (f.file, f.line))
             return
         for bi, t in sites:
             v = f.argv(bi, 1)
-            rep.check(r1, pred(v, bi), k if count == 1 else '%s@%s' % (k, short(v)[:40]), '%s <- %s   (required: %s)' % (setter, short(v)[:160], what), f.loc(bi))
+            rep.check(r1, pred(v, bi), k if len(sites) == 1 else '%s@%s' % (k, short(v)[:40]), '%s <- %s   (required: %s)' % (setter, short(v)[:160], what), f.loc(bi))
 
     # --- Ethernet
     l2 = F.fn('layer_2::reply')
@@ -151,7 +151,10 @@ def run(ctx):
             for bi, t in setter_sites(f, setter):
                 raw = f.arg(bi, 1)
                 rd = [x for x in walk(raw) if isinstance(x, tuple) and x[0] == 'modby']
-                rep.check(r1, bool(rd), '%s:%s-after-upper-layer' % (fid, setter), 'port is read from ClientInfo after the application layer ran: %s' % bool(rd), f.loc(bi))
+                # (only where the application layer can have run before this site: a copy of the tail that belongs to a reply
+                #  without payload processing has nothing to honour)
+                upper = [b2 for b2, t2 in f.calls(r'^proto::repl$|^proto::tcb::get_tcb$') if bi in f.reachable(b2)]
+                rep.check(r1, bool(rd) or not upper, '%s:%s-after-upper-layer' % (fid, setter), 'port is read from ClientInfo after the application layer ran: %s' % (bool(rd) or not upper), f.loc(bi))
 
     # R2 who may write ClientInfo
     r2 = rep.rule('C03-R2', 'ClientInfo is written only by the layer that parsed the field, with the value of the request field; the single upper-layer rewrite is the STUN change-port (+1 mod 2^16 under the change_port flag)', floor=12)
